@@ -275,6 +275,8 @@ def mutated_spec(spec):
     if spec["t"] in ("frame", "series") and spec["index"]:
         first = spec["index"][0]
         keep = [r for r, lab in enumerate(spec["index"]) if lab != first]
+        if not keep:
+            return None           # dropping the only row would leave a ZERO-ROW object, which the HDF layer refuses (its own kind, "zerorow")
         out = dict(spec, index=[spec["index"][r] for r in keep])
         if spec.get("default_index"):
             out["default_index"] = False
